@@ -191,6 +191,26 @@ theorem invU_reachable {cap maxB : Nat} {blocking : Bool} {s : St} (hr : Reachab
   | init => exact invU_init cap maxB blocking
   | step l _ hs ih => exact stepU _ _ l ih hs
 
+/-! ### the late-span race (known finding F41) -/
+
+/-- exclusion predicate of the late-span race F41: a span was enqueued after the worker had exited (its `End` passed
+the `stopped` check before the first Shutdown stored the flag and sent after the drain) — it stays in the queue -/
+def LateEnd_applies (s : St) : Bool := s.w == .exited && !(spansOf s.queue).isEmpty
+
+/-- once a late span sits in the exited worker's queue it stays there -/
+theorem lateEnd_step (s s' : St) (l : Lbl) (hs : step s l = some s') (h : LateEnd_applies s = true) :
+    LateEnd_applies s' = true := by
+  simp only [LateEnd_applies, Bool.and_eq_true, beq_iff_eq, Bool.not_eq_true', List.isEmpty_eq_false_iff] at h ⊢
+  obtain ⟨hw, hq⟩ := h
+  cases l <;> simp only [step] at hs
+  all_goals (
+    repeat' (split at hs)
+    all_goals (try (simp at hs))
+    all_goals (try subst hs)
+    all_goals (first
+      | exact ⟨hw, hq⟩
+      | (simp_all [spansOf_append, afterExport])))
+
 /-! ### counting lemmas behind `Spec.delivered` -/
 
 /-- a duplicate-free list contained in another list is not longer -/
